@@ -49,6 +49,7 @@ const (
 	OpAnswer  = "answer"  // the quota answers the pending question
 	OpSignal  = "signal"  // after an admitting answer: let the loop signal the waiter and go on
 	OpScan    = "scan"    // one TTL-watcher scan
+	OpWake    = "wake"    // the TTL watcher's timer is consulted: due (nextExpireAt <= now) -> one scan, else nothing
 	OpAdvance = "advance" // clock += D
 	OpGate    = "gate"    // B=false: removals from the watch list are held back; B=true: released
 	OpDrain   = "drain"   // shutdown
@@ -65,6 +66,8 @@ type Obs struct {
 	Panic    bool      `json:"panic,omitempty"`
 	Returned []Verdict `json:"returned,omitempty"` // waiters that came back after this op (sorted)
 	Stranded []int     `json:"stranded,omitempty"` // marked processed but Execute did not return (harness time-out)
+	// suite "sched" only: the watcher's nextExpireAt after the operation, in ns since the processor was created
+	Nea *int64 `json:"next_scan_ns,omitempty"`
 }
 
 type Op struct {
@@ -79,6 +82,7 @@ type Op struct {
 type Case struct {
 	Name   string `json:"name,omitempty"`
 	Hooked bool   `json:"hooked"`
+	Sched  bool   `json:"sched,omitempty"` // suite "sched": the watcher's timer is observed and drives the scans
 	Cfg    Cfg    `json:"cfg"`
 	Ops    []Op   `json:"ops"`
 }
@@ -198,9 +202,18 @@ type reqResult struct {
 	panicked bool
 }
 
+// schedShim is what the add-only shim verif_c06b.go exports; the harness asks
+// for it dynamically, so a tree without that file is reported, not a build failure.
+type schedShim interface {
+	NextExpireAt() (time.Time, bool)
+}
+
 type world struct {
 	cfg    Cfg
 	hooked bool
+	sched  bool      // suite "sched"
+	shim   schedShim // nil: the tree under check does not export the watcher's timer
+	t0     time.Time // mock clock when the processor was created
 	proc   stream_types.ProcessorI
 	h      *queue_processor.VerifHandle
 	mock   *clock.MockClock
@@ -224,6 +237,7 @@ type world struct {
 	gateMu         sync.Mutex
 	gateCond       *sync.Cond
 	gateOpen       bool
+	scanHold       bool // removals are held back while a scan body runs (suite "sched": the recalculation must not race with them)
 	pendingRemoves int
 
 	seenPoints map[string]bool
@@ -259,7 +273,7 @@ func yieldHandler(point string) {
 		}
 	case "queue.before_remove":
 		w.gateMu.Lock()
-		for !w.gateOpen {
+		for !w.gateOpen || w.scanHold {
 			w.gateCond.Wait()
 		}
 		w.gateMu.Unlock()
@@ -322,6 +336,8 @@ func newWorld(cfg Cfg, hooked bool) *world {
 		panic("not a queue processor")
 	}
 	w.h = h
+	w.shim, _ = any(h).(schedShim)
+	w.t0 = w.mock.Now()
 	// The watcher's own goroutine (real-time timer) must not scan behind the
 	// harness's back: the process-wide context is cancelled, so it leaves at its
 	// first select; wait for that before the clock is moved.
@@ -513,7 +529,15 @@ func (w *world) exec(op *Op) bool {
 		if w.drained {
 			return false // the watcher goroutine leaves on the cancellation that caused the drain
 		}
-		w.protect(o, w.h.TTLScan)
+		w.scan(o)
+	case OpWake:
+		if w.drained || !w.sched || w.shim == nil {
+			return false
+		}
+		// what manageTTLs does with its timer: wait nextExpireAt - now, not at all when that is negative
+		if nea, ok := w.shim.NextExpireAt(); ok && !nea.After(w.mock.Now()) {
+			w.scan(o)
+		}
 	case OpAdvance:
 		w.mock.Set(w.mock.Now().Add(time.Duration(op.D)))
 	case OpGate:
@@ -535,7 +559,44 @@ func (w *world) exec(op *Op) bool {
 	}
 	o.Asking = w.asking // the request the loop holds (quota asked, or admitted and not yet signalled)
 	w.collect(o)
+	if w.sched && w.shim != nil {
+		v := int64(-1)
+		if nea, ok := w.shim.NextExpireAt(); ok {
+			v = nea.Sub(w.t0).Nanoseconds()
+		}
+		o.Nea = &v
+	}
 	return true
+}
+
+// scan runs the body of one watcher iteration (scan + recalculation). In the
+// suite "sched" the removals of the waiters it releases are held back until the
+// body has returned: in the code they are asynchronous (go removeRequest) and
+// may or may not land before the recalculation reads the table; holding them
+// back fixes the one order the model describes (recalculation first).
+func (w *world) scan(o *Obs) {
+	hold := w.sched && w.hooked
+	if hold {
+		w.gateMu.Lock()
+		w.scanHold = true
+		w.gateMu.Unlock()
+	}
+	w.protect(o, w.h.TTLScan)
+	if hold {
+		w.gateMu.Lock()
+		w.scanHold = false
+		w.gateCond.Broadcast()
+		w.gateMu.Unlock()
+	}
+}
+
+// nea is the watcher's timer in ns since the processor was created.
+func (w *world) nea() (int64, bool) {
+	if w.shim == nil {
+		return 0, false
+	}
+	t, ok := w.shim.NextExpireAt()
+	return t.Sub(w.t0).Nanoseconds(), ok
 }
 
 // collect waits for every waiter whose request has been marked processed and
